@@ -91,7 +91,7 @@ theorem step_base_eq (env : Env) (s : St) (b : UInt8) (h : triggered env s b = n
   | err c a => simp [liftStep, liftRes]
   | again s' =>
     simp only [liftStep, again_not_triggered env s b s' hs]
-    cases hs2 : step1 env s' b <;> simp [liftStep, liftRes]
+    cases hs2 : step1 env s' b <;> simp [liftRes]
 
 theorem finish_base_eq (env : Env) (s : St) :
     Model.MachineAp.finish env (.base s) = (match finish env s with | .ok v => .ok v | .error c => .error (.err c)) := rfl
@@ -338,7 +338,7 @@ theorem endStr_not_str (env : Env) (s : St) (st : StrSt) (s' : St) (h : endStr e
 
 theorem last_of_four {acc : List UInt8} {b x1 x2 x3 x4 : UInt8} (hl : acc ++ [b] = [x1, x2, x3, x4]) : b = x4 := by
   have := congrArg List.reverse hl
-  simp only [List.reverse_append, List.reverse_cons, List.reverse_nil, List.nil_append, List.singleton_append,
+  simp only [List.reverse_append, List.reverse_cons, List.reverse_nil, List.nil_append,
     List.cons_append] at this
   exact (List.cons.inj this).1
 
@@ -393,7 +393,7 @@ theorem stepStr_esc (env : Env) (s : St) (st st' : StrSt) (b : UInt8)
       subst h
       simp only [beq_iff_eq] at hb hq
       exact ⟨by simp [escPending], fun _ hb' => absurd hb' hb, fun _ hb' => absurd hb' hq,
-        fun _ _ _ => .inl (by simp [escPending, hesc])⟩
+        fun _ _ _ => .inl (by simp [escPending])⟩
   | bs =>
     obtain ⟨mode, fs⟩ := s
     unfold stepStr at h
